@@ -73,6 +73,9 @@ func (e *Env) evalModItems(exprs []ast.Expr) []modItem {
 					} else if v.K == KSlice {
 						ref = v.Bas
 					}
+					if v.T != nil {
+						e.r.assumeFieldTypes(e.st, ref, derefType(v.T), 0)
+					}
 					out = append(out, modItem{kind: "star", ref: ref, src: src})
 					continue
 				case "elems":
@@ -1347,6 +1350,20 @@ func (r *FnRun) havocLoop(st *State, li *loopInfo, b *ssa.BasicBlock) {
 		explicit = true
 	}
 	allocNow := st.alloc
+	// local objects allocated before the loop and never written inside it keep their contents
+	var keepLocal []string
+	for _, a := range r.loopUntouchedAllocs(li) {
+		if v, ok := st.vals[a]; ok && strings.HasPrefix(v.S, "(obj new.") {
+			keepLocal = append(keepLocal, v.S)
+		}
+	}
+	localKeep := func(v string) string {
+		var ds []string
+		for _, o := range keepLocal {
+			ds = append(ds, sEq(sx("rootref", v), o))
+		}
+		return sOr(ds...)
+	}
 	for _, k := range []string{"I", "B", "R", "S"} {
 		if !w[k] {
 			continue
@@ -1359,6 +1376,7 @@ func (r *FnRun) havocLoop(st *State, li *loopInfo, b *ssa.BasicBlock) {
 		} else {
 			keep = sAnd(sx("<", sx("rootid", "r"), allocNow), keep)
 		}
+		keep = sOr(keep, localKeep("r"))
 		// ghost globals (blocked, now) are part of every loop frame unless listed
 		st.assume(fmt.Sprintf("(forall ((r Ref)) (! (=> %s (= (select %s r) (select %s r))) :pattern ((select %s r))))", keep, n, old, n))
 		st.heap[k] = n
@@ -1369,6 +1387,10 @@ func (r *FnRun) havocLoop(st *State, li *loopInfo, b *ssa.BasicBlock) {
 		keepB := sx("<", sx("rootid", "b"), r.alloc0)
 		if explicit {
 			keepB = sx("<", sx("rootid", "b"), allocNow)
+		}
+		if lk := localKeep("b"); lk != "false" {
+			// untouched local arrays: stated separately (they are never in the frame)
+			st.assume(fmt.Sprintf("(forall ((b Ref)) (! (=> %s (= (select %s b) (select %s b))) :pattern ((select %s b))))", lk, n, old, n))
 		}
 		hasElems := false
 		for _, it := range items {
@@ -1392,6 +1414,10 @@ func (r *FnRun) havocLoop(st *State, li *loopInfo, b *ssa.BasicBlock) {
 // ---------- function entry / exit ----------
 
 func (r *FnRun) atReturn(st *State, res []Val, site ssa.Instruction) {
+	// vacuity guard: some return of the function must be reachable
+	cv := r.oblig(st, "cover", "return", nil, "false", "some return is reachable under the accumulated hypotheses (at least one path must not be refutable)", r.C.Serves)
+	cv.Cover = true
+	cv.AnyPath = true
 	env := &Env{r: r, st: st, old: r.entry, vars: map[string]Val{}, fn: r.Fn}
 	env.pkg = r.entryEnv.pkg
 	for k, v := range r.entryEnv.vars {
@@ -1506,4 +1532,137 @@ func (r *FnRun) unstatable(st *State, kind, lbl string, cl *Clause, err error) {
 	o := r.oblig(st, kind, lbl, nil, "false", "clause cannot be stated on the current code ("+err.Error()+"): "+cl.Src, props)
 	o.Clause = cl.Src
 	o.NoSolve = "contract clause no longer evaluable: " + err.Error()
+}
+
+// assumeFieldTypes: type facts (tyof / alen / elty) for the array-typed and
+// struct-typed fields of the object at ref, so that a wide frame x.* can be
+// told apart from arrays of other types.
+func (r *FnRun) assumeFieldTypes(st *State, ref string, t types.Type, depth int) {
+	if t == nil || depth > 2 {
+		return
+	}
+	s, ok := t.Underlying().(*types.Struct)
+	if !ok || isTimeTime(t) {
+		return
+	}
+	for i := 0; i < s.NumFields(); i++ {
+		ft := s.Field(i).Type()
+		fr := sx("fld", ref, fmt.Sprint(i))
+		switch ft.Underlying().(type) {
+		case *types.Array:
+			r.assumeTy(st, fr, types.NewPointer(ft))
+		case *types.Struct:
+			r.assumeTy(st, fr, types.NewPointer(ft))
+			st.assume(sEq(sx("elty", fr), "0"))
+			r.assumeFieldTypes(st, fr, ft, depth+1)
+		default:
+			st.assume(sEq(sx("elty", fr), "0")) // not an array: never the base of a slice
+		}
+	}
+}
+
+// loopUntouchedAllocs: allocations made outside the loop whose storage the loop
+// body can not write: no store through an address derived from them inside the
+// loop and no call inside the loop receives a value derived from them.
+func (r *FnRun) loopUntouchedAllocs(li *loopInfo) []ssa.Value {
+	derived := func(v ssa.Value) ssa.Value {
+		for {
+			switch x := v.(type) {
+			case *ssa.FieldAddr:
+				v = x.X
+			case *ssa.IndexAddr:
+				v = x.X
+			case *ssa.Slice:
+				v = x.X
+			case *ssa.ChangeType:
+				v = x.X
+			case *ssa.Convert:
+				v = x.X
+			case *ssa.Alloc, *ssa.MakeSlice:
+				return v
+			default:
+				return nil
+			}
+		}
+	}
+	touched := map[ssa.Value]bool{}
+	for b := range li.blocks {
+		for _, in := range b.Instrs {
+			switch x := in.(type) {
+			case *ssa.Store:
+				if a := derived(x.Addr); a != nil {
+					touched[a] = true
+				}
+				if a := derived(x.Val); a != nil {
+					touched[a] = true // address escapes into memory
+				}
+			case ssa.CallInstruction:
+				for _, arg := range x.Common().Args {
+					if a := derived(arg); a != nil {
+						touched[a] = true
+					}
+				}
+				if a := derived(x.Common().Value); a != nil {
+					touched[a] = true
+				}
+			case *ssa.MakeInterface:
+				if a := derived(x.X); a != nil {
+					touched[a] = true
+				}
+			case *ssa.Phi:
+				for _, e := range x.Edges {
+					if a := derived(e); a != nil {
+						touched[a] = true
+					}
+				}
+			}
+		}
+	}
+	// an address that escapes anywhere (stored, boxed, passed to a call) may be
+	// written through another name: treat as touched
+	for _, b := range r.Fn.Blocks {
+		for _, in := range b.Instrs {
+			switch x := in.(type) {
+			case *ssa.Store:
+				if a := derived(x.Val); a != nil {
+					touched[a] = true
+				}
+			case ssa.CallInstruction:
+				for _, arg := range x.Common().Args {
+					if a := derived(arg); a != nil {
+						touched[a] = true
+					}
+				}
+			case *ssa.MakeInterface:
+				if a := derived(x.X); a != nil {
+					touched[a] = true
+				}
+			case *ssa.MakeClosure:
+				for _, bd := range x.Bindings {
+					if a := derived(bd); a != nil {
+						touched[a] = true
+					}
+				}
+			}
+		}
+	}
+	var out []ssa.Value
+	for _, b := range r.Fn.Blocks {
+		if li.blocks[b] {
+			continue
+		}
+		for _, in := range b.Instrs {
+			switch x := in.(type) {
+			case *ssa.Alloc:
+				if !touched[x] {
+					out = append(out, x)
+				}
+			case *ssa.MakeSlice:
+				if !touched[x] {
+					out = append(out, x)
+				}
+			}
+		}
+	}
+	return out
 }
